@@ -64,7 +64,26 @@ func genC07(t *rapid.T, w *world.World) caseC07 {
 	c := caseC07{Callback: pick(t, "callback", []string{"recv", "recv", "recv", "recv", "ack-success", "ack-error", "timeout"})}
 	tr := genBroadTransfer(t, w)
 	tr.Receiver = genForeignReceiver(t)
-	switch pick(t, "data", []string{"orbiter-memo", "orbiter-memo", "no-memo", "other-memo", "sender-source", "bad-amount", "bad-denom", "bytes", "json", "spelling", "spelling", "spelling"}) {
+	switch pick(t, "data", []string{"orbiter-memo", "orbiter-memo", "no-memo", "other-memo", "sender-source", "bad-amount", "bad-denom", "bytes", "json", "spelling", "spelling", "spelling", "large"}) {
+	case "large":
+		// packets at and beyond the sizes other layers impose: memos up to and above ICS-20's
+		// 32768-byte send-side limit, memos that double in size when escaped into the packet data
+		// (JSON inside JSON), long denominations; whatever the wrapped application makes of them,
+		// the middleware makes the same
+		n := pick(t, "large/len", []int{9000, 18000, 30000, 32768, 32769, 70000})
+		var m string
+		switch pick(t, "large/shape", []string{"plain", "escaped-json", "escaped-json"}) {
+		case "plain":
+			m = strings.Repeat("a", n)
+		default:
+			unit := `{"wasm":{"contract":"c","msg":{"k":"v"}}},`
+			m = `{"forward":{"next":"` + strings.Repeat("\\"+`"`, 4) + `","list":[` + strings.Repeat(unit, n/len(unit)) + `{}]}}`
+		}
+		tr.RawMemo = &m
+		if kit.Chance(t, "large/denom", 30) {
+			d := world.ReturnDenom(tr.Channel, "") + strings.Repeat("x", pick(t, "large/denomlen", []int{100, 128, 5000}))
+			tr.RawDenom = &d
+		}
 	case "spelling":
 		// the five members written as text with spelling variants on which JSON decoders disagree;
 		// whether such a packet is addressed to the orbiter account is what the ICS-20 codec reads
